@@ -606,7 +606,7 @@ func (e *Engine) proveLemma(l *LemmaSpec, dir string, perMs int) *Obligation {
 	st.alloc = vc.declare("alloc0", "Int")
 	st.ep.alloc = "alloc0"
 	vc.old = st
-	o := &Obligation{Name: vc.key + "#lemma@" + shorten(l.Src, 60), Kind: "lemma", Tags: l.Tags, Fn: vc.key, Desc: l.Src}
+	o := &Obligation{Name: vc.key, Kind: "lemma", Tags: l.Tags, Fn: vc.key, Desc: l.Src}
 	c := vc.newCtx(nil, st, st, nil)
 	if p := e.byName[l.Pkg]; p != nil {
 		c.pkg = p.Pkg
@@ -626,7 +626,7 @@ func (e *Engine) proveLemma(l *LemmaSpec, dir string, perMs int) *Obligation {
 		term = c.peelForall(l.E)
 	}()
 	var sb strings.Builder
-	sb.WriteString("(set-logic ALL)\n")
+	sb.WriteString("(set-option :produce-models true)\n(set-logic ALL)\n")
 	for _, d := range vc.sorts.decls {
 		sb.WriteString(d + "\n")
 	}
@@ -636,18 +636,22 @@ func (e *Engine) proveLemma(l *LemmaSpec, dir string, perMs int) *Obligation {
 	for _, b := range vc.body {
 		sb.WriteString(b + "\n")
 	}
-	fmt.Fprintf(&sb, "(assert (not %s))\n(check-sat)\n", term)
+	fmt.Fprintf(&sb, "(assert (not %s))\n(check-sat)\n(get-model)\n", term)
 	file := filepath.Join(dir, sanitize(vc.key)+".smt2")
 	os.WriteFile(file, []byte(sb.String()), 0o644)
 	sec := perMs/1000 + 5
 	for _, sv := range [][]string{{"cvc5", "cvc5", "--lang=smt2", "--strings-exp", fmt.Sprintf("--tlimit=%d", perMs), file},
 		{"z3new", "z3-new", "-smt2", fmt.Sprintf("-T:%d", sec), file}, {"z3", "z3", "-smt2", fmt.Sprintf("-T:%d", sec), file}} {
+		if sv[0] == "cvc5" {
+			sv = append(sv[:len(sv)-1], "--produce-models", file)
+		}
 		out := strings.TrimSpace(runRaw(sv[1:], sec+5))
 		first := strings.SplitN(out, "\n", 2)[0]
 		if first == "unsat" || first == "sat" {
 			o.Result, o.Solver = first, sv[0]
 			if first == "sat" {
-				o.Desc = l.Src + " -- solver output: " + truncate(out, 500)
+				o.Desc = l.Src + " -- counter-model: " + truncate(out, 900)
+				o.witness = truncate(out, 900)
 			}
 			return o
 		}
